@@ -433,6 +433,24 @@ def render(c):
         decl = "".join('<xsl:decimal-format name="f%d" decimal-separator="%s" grouping-separator="%s"/>' % (k, ",:!|^"[k % 5], "._ ~+"[(k // 5) % 5]) for k in range(i))
         uses = "".join("<v><xsl:value-of select=\"format-number(1234.5, '#%s##0%s0', 'f%d')\"/></v>" % ("._ ~+"[(k // 5) % 5], ",:!|^"[k % 5], k) for k in list(range(i)) * 2)
         return "xsl", sheet(uses, decl), fl
+    if cls == "manyLiveStrings":
+        # i computed strings alive at the same moment (a processor may keep a bounded cache of string buffers): v = "scope": i string-valued
+        # variables in one template; v = "recursion": a named template that calls itself i levels deep with a computed string parameter
+        if v == "scope":
+            body = "".join('<xsl:variable name="v%d" select="concat(\'a\', %d)"/>' % (k, k) for k in range(i)) + '<xsl:value-of select="$v%d"/>' % (i - 1)
+            return "xsl", sheet(body), fl
+        top = ('<xsl:template name="r"><xsl:param name="n"/><xsl:param name="s"/><xsl:choose><xsl:when test="$n &gt; 0"><xsl:call-template name="r">'
+               '<xsl:with-param name="n" select="$n - 1"/><xsl:with-param name="s" select="concat(substring($s, 1, 3), $n)"/></xsl:call-template></xsl:when>'
+               '<xsl:otherwise><xsl:value-of select="$s"/></xsl:otherwise></xsl:choose></xsl:template>')
+        return "xsl", sheet('<xsl:call-template name="r"><xsl:with-param name="n" select="%d"/><xsl:with-param name="s" select="\'a\'"/></xsl:call-template>' % i, top), fl
+    if cls == "dotSegmentHref":
+        # a relative URI reference whose path has a segment that BEGINS with a dot without being "." or ".." (RFC 2396 5.2 step 6 only removes
+        # those two); the target does not exist: an error or an empty result, but the call must return
+        if i == 1:
+            return "xsl", sheet("<x/>", '<xsl:include href="%s"/>' % v), fl
+        if i == 2:
+            return "xsl", sheet("<x/>").replace(b"<xsl:template", ('<xsl:import href="%s"/><xsl:template' % v).encode(), 1), fl
+        return "xsl", sheet('<xsl:value-of select="count(document(\'%s\'))"/>' % v), fl
     if cls == "manyDefaultCounts":
         # xsl:number without count= on nodes with i different names (elements, then attributes, of a result tree fragment turned into a
         # node-set): the default count pattern is built - and may be cached - per name at run time
